@@ -10,7 +10,7 @@ from ..astutil import call_name, calls_in, dotted, own_nodes, unparse, kwarg, na
 from ..cfg import cfg_of
 from ..dataflow import reaching, value_sources, PARAM
 from ..expr import Translator, equal
-from ..model import AnalysisError, Program, norm_key
+from ..model import AnalysisError, Program, norm_key, parent_of
 from ..report import Checker
 from .common import engine, group_effects, describe_effect, chain_text
 
@@ -67,6 +67,7 @@ def run(ck: Checker, prog: Program, tier: str):
                          loc=e.chain[0].loc, path=chain_text(e))
     _r3(ck, prog)
     _r4(ck, prog)
+    ck.guard(_option_forwarding, ck, prog, funcs)
     ck.extra["calls_resolved"] = eng.calls_resolved
     ck.extra["externals_assumed_pure"] = dict(eng.assumed_pure)
 
@@ -495,3 +496,41 @@ def _r4(ck: Checker, prog: Program):
         else:
             ck.violation("C20.R4", f.qualname, norm_key(c), "caption peak is not hvsr.mean_curve_peak(distribution=distribution_mc)",
                          loc=f.loc(c))
+
+
+#: options that decide which windows' lines and markers are drawn (the gating table of the single panel, C20.R3)
+STATE_OPTIONS = ("plot_valid_curves", "plot_invalid_curves", "plot_peak_individual_valid_curves", "plot_peak_individual_invalid_curves")
+
+
+def _option_forwarding(ck: Checker, prog: Program, funcs):
+    """A plotting function that hands its own option <k> on to another function of the module which has an option of the same
+    name must pass it the value of <k>, not the value of another of its options (crossed wires: the figure then shows a state the
+    caller did not ask for).  By def-use: the parameters the passed expression derives from."""
+    from ..dataflow import value_sources
+    from ..astutil import bind_call
+    n = 0
+    for f in sorted(funcs, key=lambda x: x.node.lineno):
+        mine = set(f.params)
+        for c in calls_in(f.node):
+            r = prog.resolve_name(f.module, c.func.id) if isinstance(c.func, ast.Name) else None
+            if not r or r[0] != "func" or r[1].module is not f.module:
+                continue
+            g = r[1]
+            at = c
+            while at is not None and not isinstance(at, ast.stmt):
+                at = parent_of(at)
+            for k, e in bind_call(c, g.params).items():
+                if k not in mine or k in DATA_PARAMS:
+                    continue
+                src, _stmts = value_sources(f, e, at)
+                n += 1
+                if k not in STATE_OPTIONS and not k.startswith("distribution"):
+                    # options that only add or drop a statistic's marker: whatever is drawn is still the object's statistic
+                    ck.ok("C20.R3", f.qualname, f"{g.name}({k}=...) does not select windows or a distribution", nontrivial=False)
+                elif k in src or not src:
+                    ck.ok("C20.R3", f.qualname, f"{g.name}({k}=...) receives the caller's `{k}`", nontrivial=False)
+                else:
+                    ck.violation("C20.R3", f.qualname, f"{g.name}: {k}",
+                                 f"{f.qualname} passes `{k}={unparse(e)}` to {g.name}: the option `{k}` of the caller is replaced by "
+                                 f"{sorted(src)}, so the panel is drawn for options the caller did not give", loc=f.loc(c))
+    ck.floor("C20.R3", n, 20, "options forwarded under their own name")
